@@ -424,6 +424,10 @@ def oracle(ctx: Any, case: dict[str, Any], m: dict[str, Any], ops: list[list[Any
     if any(e[0] == "raised" for e in everything):
         bad = [e for e in everything if e[0] == "raised"][0]
         ctx.fail(case, f"C10:raised:{bad[1]}:{kindtag}", f"a non-RpcError exception reached the caller: {bad}")
+    crash = [e for e in everything if e[0] == "error" and e[1] == "HttpError"]
+    if crash:
+        # the server answered with a non-Arrow body: an exception escaped the RPC error path (a refusal is an RPC error)
+        ctx.fail(case, f"C10:unhandled-server-exception:{kindtag}", f"client saw {crash[0][:3]}")
     # --- header: once, before any data
     if m.get("header") and init_ok:
         hs = [i for i, e in enumerate(everything) if e[0] == "header"]
